@@ -11,6 +11,9 @@ mod kinds;
 mod prng;
 
 mod c03;
+mod c11;
+mod model;
+mod tables;
 #[cfg(feature = "serde")]
 mod c16;
 #[cfg(not(feature = "nostd"))]
@@ -66,6 +69,14 @@ macro_rules! scenarios {
         match $name {
             "c03" => {
                 let $s = c03::C03;
+                $body
+            }
+            "c11" => {
+                let $s = c11::C11;
+                $body
+            }
+            "c11small" => {
+                let $s = c11::C11Small;
                 $body
             }
             #[cfg(feature = "serde")]
